@@ -1,4 +1,5 @@
 import Swim.Props.C01
+import Swim.Gen.Facts
 /-!
 # C07  Membership events are a serialized, faithful log of Members()
 
@@ -208,5 +209,26 @@ theorem C07_alive_sync (n : Node) (a : AliveMsg) (nt b : Bool) (env : Env) (hsel
       · intro hno
         have := hno (.join a.node a.addr a.port a.md) (by simp [aliveApply, hst, stub, St.deadOrLeft])
         cases this
+
+
+/-! ### callbacks are serialised: structural facts regenerated from the source -/
+
+/-- **events only under the node lock.** Every call of a membership event / conflict / alive
+delegate is made from `aliveNode` or `deadNode`, and both functions begin with
+`m.nodeLock.Lock(); defer m.nodeLock.Unlock()`, so no two callbacks overlap and none runs
+outside the critical section that changes `Members()`. (The merge delegate is a veto hook, not an
+event, and is called before any state change.) -/
+theorem C07_events_only_under_lock :
+    Gen.notifySites.all (fun s =>
+      (s.2.1 == "NotifyMerge" && s.1 == "Memberlist.mergeRemoteState") ||
+      ((s.1 == "Memberlist.aliveNode" || s.1 == "Memberlist.deadNode") && s.2.2 == "locked")) = true := by
+  decide
+
+/-- the event delegate is called from exactly these places -/
+theorem C07_event_sites :
+    (Gen.notifySites.filter (fun s => s.2.1 == "NotifyJoin" || s.2.1 == "NotifyLeave" || s.2.1 == "NotifyUpdate")) =
+      [("Memberlist.aliveNode", "NotifyJoin", "locked"), ("Memberlist.aliveNode", "NotifyUpdate", "locked"),
+       ("Memberlist.deadNode", "NotifyLeave", "locked")] := by
+  decide
 
 end Swim.Merge
